@@ -2,6 +2,8 @@
 package polynomial
 
 import (
+	"math/big"
+
 	"github.com/tuneinsight/lattigo/v6/circuits/common/polynomial"
 	"github.com/tuneinsight/lattigo/v6/schemes/bgv"
 	"github.com/tuneinsight/lattigo/v6/utils/bignum"
@@ -12,7 +14,22 @@ type Polynomial polynomial.Polynomial
 
 // NewPolynomial creates a new Polynomial from a list of coefficients []T.
 func NewPolynomial[T bgv.Integer](coeffs []T) Polynomial {
-	return Polynomial(polynomial.NewPolynomial(bignum.NewPolynomial(bignum.Monomial, coeffs, nil)))
+	return Polynomial(polynomial.NewPolynomial(bignum.NewPolynomial(bignum.Monomial, exactCoefficients(coeffs), nil)))
+}
+
+// exactCoefficients converts integer coefficients (int64 or uint64) exactly: a negative coefficient stays
+// negative and is reduced modulo the plaintext modulus by the [CoefficientGetter] of the evaluator.
+func exactCoefficients[T bgv.Integer](coeffs []T) (out []*big.Float) {
+	out = make([]*big.Float, len(coeffs))
+	for i, c := range coeffs {
+		switch c := any(c).(type) {
+		case uint64:
+			out[i] = new(big.Float).SetUint64(c)
+		case int64:
+			out[i] = new(big.Float).SetInt64(c)
+		}
+	}
+	return
 }
 
 // PolynomialVector is a type wrapping the type [polynomial.PolynomialVector].
@@ -28,7 +45,7 @@ func NewPolynomialVector[T bgv.Integer](polys [][]T, mapping map[int][]int) (Pol
 	ps := make([]bignum.Polynomial, len(polys))
 
 	for i := range ps {
-		ps[i] = bignum.NewPolynomial(bignum.Monomial, polys[i], nil)
+		ps[i] = bignum.NewPolynomial(bignum.Monomial, exactCoefficients(polys[i]), nil)
 	}
 
 	p, err := polynomial.NewPolynomialVector(ps, mapping)
